@@ -869,3 +869,7 @@ impl<T: ?Sized + Trace + Hash> Hash for Cc<T> {
 impl<T: ?Sized + Trace + UnwindSafe> UnwindSafe for Cc<T> {}
 
 impl<T: ?Sized + Trace + RefUnwindSafe> RefUnwindSafe for Cc<T> {}
+
+#[cfg(kani)]
+#[path = "/verif/kani/cc_proofs.rs"]
+pub(crate) mod verif_proofs; // verification hook (H2): specs and contract harnesses live in /verif
